@@ -3,7 +3,7 @@ from symx import groups as G, check
 
 FNS_BASE = ["compose", "inverse", "matrix", "identity", "exp", "log", "hat", "vee", "Ad", "ad", "bracket",
             "dr_exp", "dr_expinv", "dl_exp", "dl_expinv", "rplus", "rminus"]
-FNS_D2 = ["d2r_exp", "d2r_expinv", "d2l_exp", "d2l_expinv"]
+FNS_D2 = ["d2r_exp", "d2r_expinv", "d2l_exp", "d2l_expinv", "rminus_derivs"]
 
 
 def cpp_type(g, scalar="double"):
